@@ -29,7 +29,7 @@ def spec_status(n, hard, outcomes, order=None):
             if rec(d, seen + (t,)) in ('FAILED', 'SKIPPED'):
                 memo[t] = 'SKIPPED'
                 return 'SKIPPED'
-        memo[t] = 'DONE' if OUTCOME_MODEL.get(outcomes[t], (False, False))[1] else 'FAILED'
+        memo[t] = 'DONE' if OUTCOME_MODEL.get(outcomes[t].partition(':')[0], (False, False))[1] else 'FAILED'
         return memo[t]
     return [rec(t) for t in range(n)]
 
@@ -85,7 +85,8 @@ class World:
                         ent.get('start_clock') is not None and ent.get('end_clock') is not None,
                         world.exec_count[d])
                 ctl.note('obs', obs)
-                kind = world.outcomes[self.idx]
+                kind, _, var = world.outcomes[self.idx].partition(':')
+                var = int(var or 0)
                 upd = {self.name: {'payload': k}}
                 if kind == 'done':
                     return upd, TaskStatus.DONE
@@ -96,17 +97,18 @@ class World:
                 if kind == 'failnone':
                     return None, TaskStatus.FAILED
                 if kind == 'raise':
-                    raise RuntimeError('probe task fails')
+                    raise [RuntimeError, KeyError, ValueError, OSError][var % 4]('probe task fails')
                 if kind == 'none':
                     return None
                 if kind == 'notpair':
-                    return upd, TaskStatus.DONE, 'extra'
+                    return [(upd, TaskStatus.DONE, 'extra'), (upd,), 5, 'ab', (), [upd],
+                            {'a': 1, 'b': 2}][var % 7]
                 if kind == 'badstatus':
-                    return upd, 'bogus'
+                    return upd, ['bogus', 0, None, 99, 'DONE', -1, (3,)][var % 7]
                 if kind == 'badupdate':
-                    return [1, 2, 3], TaskStatus.DONE
+                    return [[1, 2, 3], [], (), '', 0, False, set(), 'abc', 5][var % 9], TaskStatus.DONE
                 if kind == 'waitstatus':
-                    return upd, TaskStatus.WAITING
+                    return upd, [TaskStatus.WAITING, TaskStatus.PENDING, TaskStatus.SKIPPED, True][var % 4]
                 raise AssertionError(kind)
         self.Probe = Probe
 
